@@ -428,6 +428,7 @@ def check_conj_new(ctx, lib, rule, fn_suffix, goalpath, node_suffix):
     t = plain_evaluator(lib).fn_term(fn)
     key = fn["npath"]
     site = site_of(fn)
+    ctx.tabled_exits.add(key)  # every early return below is validated against the identities of conjunction
     eff, res = tables.flatten(t)
     # final result: node with goal_1=@0 goal_2=@1 (possibly wrapped by dynamic(...)/InferredGoal{goal:..})
     node = [s for s in sym.subterms(res) if s[0] == "struct" and suffix_match(s[1], node_suffix)]
@@ -480,6 +481,7 @@ def check_disj_new(ctx, lib, rule, fn_suffix, node_suffix):
     t = plain_evaluator(lib).fn_term(fn)
     key = fn["npath"]
     site = site_of(fn)
+    ctx.tabled_exits.add(key)  # every early return below is validated against the identities of disjunction
     eff, res = tables.flatten(t)
     node = [s for s in sym.subterms(res) if s[0] == "struct" and suffix_match(s[1], node_suffix)]
     good = False
